@@ -128,6 +128,10 @@ type zzConn struct {
 	reads     []zzRead
 	nread     int
 	deadlines int
+
+	blockWhenIdle bool
+	wake          chan struct{}
+	woken         bool
 }
 
 type zzRead struct {
@@ -139,6 +143,14 @@ type zzRead struct {
 
 func (c *zzConn) ReadFrom() (ndp.Message, *ipv6.ControlMessage, netip.Addr, error) {
 	if c.nread >= len(c.reads) {
+		if c.blockWhenIdle {
+			// a real socket blocks until a message arrives or the read deadline is moved into the past
+			if c.wake == nil {
+				c.wake = make(chan struct{})
+			}
+			<-c.wake
+			return nil, nil, netip.Addr{}, zzTimeout{}
+		}
 		return nil, nil, netip.Addr{}, zzErrEnv
 	}
 	r := c.reads[c.nread]
@@ -149,7 +161,19 @@ func (c *zzConn) ReadFrom() (ndp.Message, *ipv6.ControlMessage, netip.Addr, erro
 	return r.m, &ipv6.ControlMessage{HopLimit: r.hop}, r.host, nil
 }
 
-func (c *zzConn) SetReadDeadline(t time.Time) error { c.deadlines++; return nil }
+func (c *zzConn) SetReadDeadline(t time.Time) error {
+	c.deadlines++
+	if c.blockWhenIdle {
+		if c.wake == nil {
+			c.wake = make(chan struct{})
+		}
+		if !c.woken {
+			c.woken = true
+			close(c.wake)
+		}
+	}
+	return nil
+}
 
 func (c *zzConn) WriteTo(m ndp.Message, cm *ipv6.ControlMessage, dst netip.Addr) error {
 	ra, _ := m.(*ndp.RouterAdvertisement)
